@@ -201,6 +201,22 @@ func (tr *Translator) prepareLoopClauses(ct *Contract, f *Frame) {
 		c.unsupp("loop structure mismatch in %s: %d syntactic loops, %d SSA loops", ct.Qual, len(synLoops), len(f.loops))
 		return
 	}
+	// "loop * invariant": replicate for every loop (fresh clause objects: each is type-checked at its own loop)
+	if all := ct.Loops[0]; all != nil {
+		delete(ct.Loops, 0)
+		for k := 1; k <= len(synLoops); k++ {
+			ls := ct.Loops[k]
+			if ls == nil {
+				ls = &LoopSpec{}
+				ct.Loops[k] = ls
+			}
+			for _, cl := range all.Invariants {
+				cp := *cl
+				cp.Expr, cp.Info = nil, nil
+				ls.Invariants = append(ls.Invariants, &cp)
+			}
+		}
+	}
 	for k, ls := range ct.Loops {
 		if k < 1 || k > len(synLoops) {
 			c.unsupp("contract names loop %d of %s which has %d loops", k, ct.Qual, len(synLoops))
